@@ -11,7 +11,7 @@ CONSTANTS
   Models = {}
   WorldKinds = {}
   AgentObjs = {}
-  Types = {"A", "B", "C", "D"}
+  Types = {"A", "B", "C", "D", "E"}
   TagVals = {}
   Serials = {}
   Coords = {}
